@@ -161,9 +161,10 @@ class C10(Prop):
         if cw:   # empty segments: a trailing dot means "the default of that collection" to the lookup
             names.update([rng.choice(cw) + ".", "." + rng.choice(cw), rng.choice(cw) + ".." + (rng.choice(tw) if tw else "x")])
         names = sorted(n for n in names if n and not n.startswith("-"))
+        names.append("")          # no task on the command line: the default invocation
         groups = {"plain": [], "dsub": [], "balias": []}
         for nm in names:
-            if uses_default_subcollection(d, nm):
+            if nm and uses_default_subcollection(d, nm):
                 groups["dsub"].append(nm)
             elif uses_binding_alias(d, nm):
                 groups["balias"].append(nm)
@@ -190,6 +191,12 @@ class C10(Prop):
                 # the root is the explicit namespace of a module re-imported by from_module
                 # (what Program.load_collection does, with tasks.auto_dash_names from the config)
                 spec = ns.wrap_module(rng, dict(spec, name=rng.choice([None, "root_ns"])))
+            elif rng.random() < 0.15:
+                # the ordinary case: a tasks module without explicit namespace, loaded by from_module
+                flat = dict(spec, name=rng.choice(["tasks", "my_tasks", "class_"]),
+                            items=[it for it in spec["items"] if "task" in it])
+                if ns.plain_module_ok(flat):
+                    spec = ns.as_plain_module(flat)
             seed = rng.randrange(1 << 30) if rng.random() < 0.5 else None
             for c in self._cases_for(rng, spec):
                 if seed is not None:
@@ -265,9 +272,25 @@ class C10(Prop):
                 del log[:]
 
                 def ran():
-                    run(["prog", nm])
+                    run(["prog", nm] if nm else ["prog"])
+                    if len(log) > 1:
+                        raise _Bodies(len(log))
                     return log[0] if log else None
                 o["ran"] = _try(ran)
+
+                def helped():
+                    text = run(["prog", "--help", nm])
+                    m = re.search(r"^Usage: prog \[--core-opts\] (\S+) ", text, re.M)
+                    d = re.search(r"^Docstring:\s*\n\s*task (\d+)\s*$", text, re.M)
+                    if m is None or d is None:
+                        return None
+                    if m.group(1) != nm:
+                        raise ValueError("help for another name")
+                    return int(d.group(1))
+                del log[:]
+                o["help"] = _try(helped) if nm else {"ok": None}
+                if log:                       # asking for help must not run anything
+                    o["help"] = {"err": "RanBody"}
                 obs["nobs"].append(o)
         else:
             fmt = case["view"]
@@ -287,10 +310,11 @@ class C10(Prop):
     def to_coq(self, case, obs):
         st = ct.result(obs["state"], ns.state)
         nobs = ct.lst([
-            "(mkN %s %s %s %s)" % (
+            "(mkN %s %s %s %s %s)" % (
                 ct.result(o["contains"], ct.b), ct.result(o["getitem"], ct.n),
                 ct.result(o["parser"], ns.opt_s),
-                ct.result(o["ran"], lambda v: ct.opt(ct.n(v) if v is not None else None)))
+                ct.result(o["ran"], lambda v: ct.opt(ct.n(v) if v is not None else None)),
+                ct.result(o["help"], lambda v: ct.opt(ct.n(v) if v is not None else None)))
             for o in obs["nobs"]])
         rows = ct.result(obs["rows"], lambda rs: ct.lst([
             "(%s, %s, %s, %s)" % (ct.n(r[0]), ct.s(r[1]), ct.strs(r[2]),
@@ -355,6 +379,10 @@ class C10(Prop):
                 yield c
 
 
+class _Bodies(Exception):
+    pass
+
+
 class _Sigs(dict):
     """every task takes just the context"""
 
@@ -386,6 +414,10 @@ def _text_rows(text):
         rows.append([len(m.group("indent")) // 4, m.group("name"), aliases,
                      int(h[5:]) if h.startswith("task ") else None])
         i += 1
+    for line in lines[i:]:
+        m = re.match(r"^Default(?: '[^']*')? task: (\S+)\s*$", line)
+        if m:
+            rows.append([1000, m.group(1), [], None])     # the trailer, as a pseudo-row
     return rows
 
 
